@@ -43,7 +43,9 @@ _psSodium_crypto_sign_ed25519_verify_detached(const unsigned char *sig,
         return -1;
     }
 #else
-    if (sig[63] & 224) {
+    /* RFC 8032, 5.1.7: reject S >= L also in compatibility mode */
+    if ((sig[63] & 224) ||
+        psSodium_sc25519_is_canonical(sig + 32) == 0) {
         return -1;
     }
 #endif
